@@ -7,6 +7,8 @@ import (
 	"errors"
 	"fmt"
 	"os"
+	"sort"
+	"strings"
 	"sync"
 	"syscall"
 	"unsafe"
@@ -58,6 +60,7 @@ type State struct {
 	nInit      int
 	nRead      int
 	nRm        int
+	cookieRank map[uint32]int
 	SyncClose  bool                      // perform closes synchronously (descriptor numbers become reusable at once, as in a real process)
 	OnRead     func(fd int, data []byte) // called right after a successful real read
 	OnAdd      func(fd int, path string, mask uint32, wd int, err error)
@@ -93,6 +96,31 @@ func (s *State) log(c Call) {
 		c.Step = sc.Steps
 	}
 	s.Calls = append(s.Calls, c)
+	// what the calling thread learnt (descriptor numbers are left out: they depend on closes still in flight)
+	vsched.Observe(c.Kind, c.Path, c.Mask, c.Wd, c.Err, c.N)
+}
+
+// KeyPart renders the seam's part of the global state key.
+func (s *State) KeyPart() string {
+	var b strings.Builder
+	for i, fd := range s.Fds {
+		n := -2
+		if !s.fdClosed(fd) {
+			n = Fionread(fd)
+		}
+		fmt.Fprintf(&b, "q%d=%d;", i, n)
+	}
+	type kv struct {
+		idx    int
+		closed bool
+	}
+	var fs []kv
+	for _, fi := range s.files {
+		fs = append(fs, kv{fi.idx, fi.closed})
+	}
+	sort.Slice(fs, func(i, j int) bool { return fs[i].idx < fs[j].idx })
+	fmt.Fprintf(&b, "%v n=%d/%d/%d", fs, s.nInit, s.nRead, s.nRm)
+	return b.String()
 }
 
 func InotifyInit1(flags int) (int, error) {
@@ -248,6 +276,7 @@ func Read(f *os.File, b []byte) (int, error) {
 	if err == nil && n > 0 {
 		cp := make([]byte, n)
 		copy(cp, b[:n])
+		s.observeRecords(cp)
 		s.Reads = append(s.Reads, cp)
 		s.ReadFd = append(s.ReadFd, fi.fd)
 		if s.OnRead != nil {
@@ -334,6 +363,33 @@ func Disown(f *os.File) {
 		if fi := s.files[f]; fi != nil {
 			fi.harness = true
 		}
+	}
+}
+
+// observeRecords folds what a read returned into the reading thread's history,
+// with cookies replaced by their rank of first appearance (only equality matters).
+func (s *State) observeRecords(b []byte) {
+	if s.cookieRank == nil {
+		s.cookieRank = map[uint32]int{}
+	}
+	le := func(o int) uint32 { return uint32(b[o]) | uint32(b[o+1])<<8 | uint32(b[o+2])<<16 | uint32(b[o+3])<<24 }
+	for off := 0; off+16 <= len(b); {
+		ck := le(off + 8)
+		r := 0
+		if ck != 0 {
+			var ok bool
+			if r, ok = s.cookieRank[ck]; !ok {
+				r = len(s.cookieRank) + 1
+				s.cookieRank[ck] = r
+			}
+		}
+		n := int(le(off + 12))
+		end := off + 16 + n
+		if end > len(b) {
+			end = len(b)
+		}
+		vsched.Observe(le(off), le(off+4), r, string(b[off+16:end]))
+		off = end
 	}
 }
 
